@@ -4,6 +4,7 @@ M1  first match wins is wired in: one selector `!has_prev_match & is_match` driv
     updated afterwards, clauses are visited in source order
 M2  sibling constructors split alike: signed scrutinees are split at the arms' boundaries exactly like unsigned ones
 M3  range patterns are lowered with both bound comparisons on every path (inclusive on both ends)
+M8  a signed constructor bound is cast to an unsigned number only behind a `>= 0` test of that same bound
 M7  rebuilding a missing case: a compound constructor takes exactly its arity from the witness stack and keeps the rest
 M5  sibling consistency of the parser: struct definitions, struct patterns and struct literals all sort their field lists
     (the exhaustiveness check pairs pattern fields with definition fields by position)
@@ -493,5 +494,63 @@ def rule_m5(ctx):
     return res
 
 
+def rule_m8(ctx):
+    """The exhaustiveness check compares unsigned pattern numbers with the bounds of signed constructor pieces by casting the
+    bound `as u64`.  A negative bound becomes a huge number, so each such cast has to lie behind a `>= 0` test of that very bound
+    (L1b applied to the pattern matrix)."""
+    from . import C09
+    res = RuleResult("M8", "a signed bound is cast to an unsigned number only behind a `>= 0` test of the same bound (specialize / split functions)")
+    n = 0
+    for fid in ("check::specialize", "check::split_signed_range", "check::split_unsigned_range", "check::split_ctor"):
+        if not ctx.has_fn(fid):
+            continue
+        for body in C09.bodies_with_closures(ctx, fid):
+            # `x >= 0` / `0 <= x` tests and the edge on which they hold
+            tests = []
+            for b, blk in enumerate(body.blocks):
+                for st in blk["stmts"]:
+                    if st["k"] != "assign" or st["rv"]["k"] != "binop" or st["rv"]["op"] not in ("Ge", "Le", "Lt", "Gt"):
+                        continue
+                    l, r, op = st["rv"]["l"], st["rv"]["r"], st["rv"]["op"]
+                    if l["k"] == "const":
+                        l, r = r, l
+                        op = {"Ge": "Le", "Le": "Ge", "Lt": "Gt", "Gt": "Lt"}[op]
+                    if r["k"] != "const" or r.get("val") != 0 or l["k"] not in ("copy", "move"):
+                        continue
+                    key = frozenset(body.trace(l["place"]))
+                    for sb in range(body.n):
+                        t = body.term(sb)
+                        if t and t["k"] == "switch" and t["discr"]["k"] in ("copy", "move") and t["discr"]["place"]["l"] == st["place"]["l"] and all(v == 0 for v, _ in t["targets"]):
+                            if op == "Ge":
+                                tests.append((key, (sb, t["otherwise"])))
+                            elif op == "Lt":
+                                for v, x in t["targets"]:
+                                    tests.append((key, (sb, x)))
+            for b, blk in enumerate(body.blocks):
+                if blk["cleanup"]:
+                    continue
+                for st in blk["stmts"]:
+                    if st["k"] != "assign" or st["rv"]["k"] != "cast" or st["rv"]["op"]["k"] not in ("copy", "move"):
+                        continue
+                    src_ty, dst_ty = st["rv"]["op"]["place"]["ty"], st["rv"]["ty"]
+                    if src_ty not in ("i64", "i128", "i32") or dst_ty not in ("u64", "u128", "usize", "u32"):
+                        continue
+                    key = frozenset(body.trace(st["rv"]["op"]["place"]))
+                    if not any("as SignedInclusiveRange" in p or "as NumSigned" in p for (r, p) in key):
+                        continue
+                    n += 1
+                    from . import C02
+                    edges = {e for (k, e) in tests if k == key}
+                    if edges and C02._dominated_by_edges(body, edges, b):
+                        res.ok({"function": body.id, "cast": "line %d" % st["sp"][1], "verdict": "behind a `>= 0` test of the same bound"})
+                    else:
+                        res.bad(Finding("M8", body.id, "signed bound cast to unsigned without a sign test of that bound",
+                                        "a negative bound becomes a huge unsigned number: a piece that starts below zero counts as covered by any unsigned range arm that reaches its upper end, "
+                                        "and `match x { -128..=-4 => .., -3 => .., 5..=127 => .. }` on an i8 is accepted although -2..=4 match no arm", st["sp"]))
+    if n < 2 and not res.findings:
+        raise AnchorMissing("M8: expected the sign-changing casts of specialize (4 on the pinned tree), found %d" % n)
+    return res
+
+
 def run(ctx):
-    return ctx.run_rules([rule_m1, rule_m2, rule_m3, rule_m4, rule_m5, rule_m7])
+    return ctx.run_rules([rule_m1, rule_m2, rule_m3, rule_m4, rule_m5, rule_m7, rule_m8])
